@@ -6,6 +6,8 @@ package main
 import (
 	"context"
 	"fmt"
+	"os"
+	"os/exec"
 	"sort"
 	"strings"
 	"sync"
@@ -402,6 +404,7 @@ func runShard(env *childEnv, d runDesc, run int) runResult {
 	stop := make(chan struct{})
 	var badRead atomic.Value
 	var nWrites, nReads, nSnaps, nDeletes int64
+	var writersDone int32
 
 	for w := 0; w < d.Workers; w++ {
 		wg.Add(1)
@@ -493,6 +496,11 @@ func runShard(env *childEnv, d runDesc, run int) runResult {
 			if d.Snapshots > 0 && i >= d.Snapshots {
 				continue
 			}
+			if atomic.LoadInt32(&writersDone) != 0 {
+				// no snapshot after the last write: what the last snapshots left in the
+				// cache has to be recoverable from the WAL segments that remain
+				return
+			}
 			lg.mu.Lock()
 			lg.evs = append(lg.evs, "SvSnapBegin")
 			lg.mu.Unlock()
@@ -533,6 +541,7 @@ func runShard(env *childEnv, d runDesc, run int) runResult {
 		}
 	}()
 	wg.Wait()
+	atomic.StoreInt32(&writersDone, 1)
 	close(stop)
 	rwg.Wait()
 	// quiescent read of every series
@@ -544,13 +553,30 @@ func runShard(env *childEnv, d runDesc, run int) runResult {
 		}
 		final = append(final, res...)
 	}
+	// ... and of a copy of what is on disk now, opened by a second store (= what a restart
+	// would see): a point counts as finally readable only if it is in both
+	recovered, rerr := recoverCopy(env, te, shID, meas, d.Workers*seriesPerWriter)
+	lostOnDisk := 0
+	if rerr != nil {
+		badRead.Store("recovery copy: " + rerr.Error())
+	} else {
+		var both []uint64
+		for _, id := range final {
+			if recovered[id] {
+				both = append(both, id)
+			} else {
+				lostOnDisk++
+			}
+		}
+		final = both
+	}
 	lg.mu.Lock()
 	evs := append([]string(nil), lg.evs...)
 	acked := append([]uint64(nil), lg.acked...)
 	lg.mu.Unlock()
 	bad := "%BAD%"
 	obs := map[string]interface{}{"writes_acked": len(acked), "reads": nReads, "snapshots": nSnaps, "deletes_other_series": nDeletes,
-		"final_points": len(final)}
+		"final_points": len(final), "readable_now_but_not_from_disk_copy": lostOnDisk}
 	if e, ok := badRead.Load().(string); ok {
 		bad = "true"
 		obs["read_error"] = e
@@ -558,4 +584,109 @@ func runShard(env *childEnv, d runDesc, run int) runResult {
 	coq := fmt.Sprintf("CShard [%s] %s %s %s", strings.Join(evs, "; "), hx.CoqNList(acked), hx.CoqNList(final), bad)
 	return runResult{Coq: coq, Nontrivial: nReads > 0 && len(acked) > 0, Sig: fmt.Sprintf("shard:%d:%d:%d", d.Seed, len(evs), nReads),
 		Obs: obs, Counts: []string{"shard:reads=" + bucket(int(nReads)), "shard:writes=" + bucket(len(acked)), "shard:snapshots=" + bucket(int(nSnaps))}}
+}
+
+// recoverCopy copies the shard's files (data, WAL, series file) as they are on disk and
+// opens them with a second store; it returns the points that store can read.
+func recoverCopy(env *childEnv, te *tsm1.Engine, shID uint64, meas string, nSeries int) (map[uint64]bool, error) {
+	te.SetCompactionsEnabled(false) // waits for running compactions: the file set is stable
+	root := fmt.Sprintf("%s/copy_%d", env.dir, shID)
+	defer os.RemoveAll(root)
+	src := env.dir + "/tsdb"
+	for _, sub := range []string{"data", "wal"} {
+		dst := fmt.Sprintf("%s/%s/db/rp", root, sub)
+		if err := os.MkdirAll(dst, 0755); err != nil {
+			return nil, err
+		}
+		if out, err := exec.Command("cp", "-r", fmt.Sprintf("%s/%s/db/rp/%d", src, sub, shID), dst+"/").CombinedOutput(); err != nil {
+			return nil, fmt.Errorf("cp: %v %s", err, out)
+		}
+	}
+	if out, err := exec.Command("cp", "-r", src+"/data/db/_series", root+"/data/db/").CombinedOutput(); err != nil {
+		return nil, fmt.Errorf("cp: %v %s", err, out)
+	}
+	st := tsdb.NewStore(root + "/data")
+	st.EngineOptions.Config.WALDir = root + "/wal"
+	st.EngineOptions.Config.Dir = root + "/data"
+	if err := st.Open(); err != nil {
+		return nil, err
+	}
+	defer st.Close()
+	sh := st.Shard(shID)
+	if sh == nil {
+		return nil, fmt.Errorf("shard %d not found in the copy", shID)
+	}
+	got := map[uint64]bool{}
+	for s := 0; s < nSeries; s++ {
+		res, err := readSeries(sh, meas, s)
+		if err != nil {
+			return nil, err
+		}
+		for _, id := range res {
+			got[id] = true
+		}
+	}
+	return got, nil
+}
+
+// runCacheKey: goroutines released together write distinct points to the SAME brand-new
+// series (a new cache key, a new series-type-map entry, a new index entry) - round after
+// round; every acknowledged point has to be there at the end.
+func runCacheKey(env *childEnv, d runDesc, run int) runResult {
+	st := env.getStore()
+	shID := env.newShard()
+	sh := st.Shard(shID)
+	meas := "cpu"
+	lg := &slog{}
+	k := d.Workers
+	if k < 2 {
+		k = 2
+	}
+	for round := 0; round < d.Ops; round++ {
+		release := make(chan struct{})
+		var wg sync.WaitGroup
+		for w := 0; w < k; w++ {
+			wg.Add(1)
+			go func(w int) {
+				defer wg.Done()
+				seq := w + 1
+				p, err := models.NewPoint(meas, models.NewTags(map[string]string{"host": fmt.Sprintf("h%d", round)}),
+					map[string]interface{}{"v": float64(seq)}, time.Unix(0, int64(seq)))
+				if err != nil {
+					panic(err)
+				}
+				id := pointID(round, seq)
+				<-release
+				lg.mu.Lock()
+				lg.evs = append(lg.evs, fmt.Sprintf("SvWBegin %d", id))
+				lg.mu.Unlock()
+				if err := st.WriteToShard(shID, []models.Point{p}); err == nil {
+					lg.mu.Lock()
+					lg.evs = append(lg.evs, fmt.Sprintf("SvWAck %d", id))
+					lg.acked = append(lg.acked, id)
+					lg.mu.Unlock()
+				}
+			}(w)
+		}
+		close(release)
+		wg.Wait()
+	}
+	var final []uint64
+	var rerr string
+	for s := 0; s < d.Ops; s++ {
+		res, err := readSeries(sh, meas, s)
+		if err != nil {
+			rerr = err.Error()
+		}
+		final = append(final, res...)
+	}
+	bad := "%BAD%"
+	obs := map[string]interface{}{"writes_acked": len(lg.acked), "rounds": d.Ops, "writers_per_new_key": k, "final_points": len(final)}
+	if rerr != "" {
+		bad = "true"
+		obs["read_error"] = rerr
+	}
+	coq := fmt.Sprintf("CShard [%s] %s %s %s", strings.Join(lg.evs, "; "), hx.CoqNList(lg.acked), hx.CoqNList(final), bad)
+	return runResult{Coq: coq, Nontrivial: len(lg.acked) > 0, Sig: fmt.Sprintf("cachekey:%d:%d:%d", d.Seed, d.Ops, k),
+		Obs: obs, Counts: []string{"cachekey:rounds=" + bucket(d.Ops), fmt.Sprintf("cachekey:writers=%d", k)}}
 }
